@@ -14,12 +14,12 @@ import (
 // evaluated (sizes come from the gate analysis, language classes from the constant table).
 type Ctx struct {
 	Name      string
-	EntLen    *int64 // length of every []byte parameter of the entry point
-	WordCount *int64 // value of the int parameter of the entry point
-	TokCount  *int64 // number of tokens produced by the tokeniser
+	EntLen    *int64    // length of every []byte parameter of the entry point
+	WordCount *int64    // value of the int parameter of the entry point
+	TokCount  *int64    // number of tokens produced by the tokeniser
 	SizeKind  string    // "L", "W" or "N": which size SizeRange bounds
 	SizeRange *[2]int64 // when the size is not a single value: an interval containing it (a class of rejected sizes)
-	Lang      *IntV  // value of every Language-typed parameter of the entry point
+	Lang      *IntV     // value of every Language-typed parameter of the entry point
 	// Infeasible blocks (from the gate analysis) for contexts that stand for a set of values
 	Infeasible map[*ssa.BasicBlock]bool
 }
@@ -55,14 +55,14 @@ type EdgeCond struct {
 
 // Exit is a feasible Return of some frame.
 type Exit struct {
-	Fn      *ssa.Function
-	Ret     *ssa.Return
-	Vals    []AV
-	Conds   []EdgeCond
-	InLoop  bool  // reached from inside a loop body (values may be parametric in t)
+	Fn        *ssa.Function
+	Ret       *ssa.Return
+	Vals      []AV
+	Conds     []EdgeCond
+	InLoop    bool // reached from inside a loop body (values may be parametric in t)
 	AfterLoop bool // dominated by the normal exit of a loop of this function
-	Depth   int
-	State   State
+	Depth     int
+	State     State
 }
 
 // State maps objects to contents.
@@ -94,18 +94,18 @@ type closedForm struct {
 }
 
 type frame struct {
-	fn       *ssa.Function
-	env      map[ssa.Value]AV
-	depth    int
-	loop     *loopCtx
-	blockLp  map[*ssa.BasicBlock]*loopCtx
-	edge     map[[2]*ssa.BasicBlock]State
-	edgeOK   map[[2]*ssa.BasicBlock]bool
-	rets     []retRec
-	afterLp  map[*ssa.BasicBlock]bool
-	isEntry  bool
-	ev       *Eval
-	defers   []deferRec
+	fn      *ssa.Function
+	env     map[ssa.Value]AV
+	depth   int
+	loop    *loopCtx
+	blockLp map[*ssa.BasicBlock]*loopCtx
+	edge    map[[2]*ssa.BasicBlock]State
+	edgeOK  map[[2]*ssa.BasicBlock]bool
+	rets    []retRec
+	afterLp map[*ssa.BasicBlock]bool
+	isEntry bool
+	ev      *Eval
+	defers  []deferRec
 }
 
 type deferRec struct {
@@ -121,30 +121,32 @@ type retRec struct {
 
 // Eval is one abstract evaluation of an entry point in a context.
 type Eval struct {
-	P      *Program
-	G      *Globals
-	Ctx    *Ctx
-	objs   int
-	Events []Event
-	Calls  []CallRec
-	Exits  []Exit
-	Relied map[*ssa.Global]bool // globals whose initial content was used (must be initialiser-only)
-	Notes  []string
-	Instrs int
-	Loops  []LoopInfo
-	stack  []*ssa.Function
-	initMode bool
-	builderMode bool                // evaluating a once-run builder: stores to globals are tracked locally
+	P           *Program
+	G           *Globals
+	Ctx         *Ctx
+	objs        int
+	Events      []Event
+	Calls       []CallRec
+	Exits       []Exit
+	Relied      map[*ssa.Global]bool // globals whose initial content was used (must be initialiser-only)
+	Notes       []string
+	Instrs      int
+	Loops       []LoopInfo
+	stack       []*ssa.Function
+	initMode    bool
+	builderMode bool // evaluating a once-run builder: stores to globals are tracked locally
 	GStore      map[*ssa.Global]AV
 	activeLoops []*loopCtx
-	GlobalInit map[*ssa.Global]AV
-	GlobalObj  State
-	Digests    map[string]DigestInfo
-	refs       map[string]Layout // loop-invariant values referenced at offsets affine in t
-	mapGlobals []*Obj
-	Reads      []ReadInfo
-	errObj     map[ssa.Instruction]*Obj // per read call: what is known about its error on the current path
-	lastRets   []retRec                 // the individual returns of the function evaluated last
+	GlobalInit  map[*ssa.Global]AV
+	GlobalObj   State
+	Digests     map[string]DigestInfo
+	refs        map[string]Layout // loop-invariant values referenced at offsets affine in t
+	mapGlobals  []*Obj
+	Reads       []ReadInfo
+	errObj      map[ssa.Instruction]*Obj // per read call: what is known about its error on the current path
+	lastRets    []retRec                 // the individual returns of the function evaluated last
+	lkObj       map[ssa.Instruction]*Obj // per word lookup: did it hit on the current path?
+	LoopHits    map[ssa.Instruction]bool // per word lookup inside a loop: every path to the back edge passed its hit edge
 }
 
 type LoopInfo struct {
@@ -614,6 +616,14 @@ func (e *Eval) afterLoop(fr *frame, b *ssa.BasicBlock) bool {
 // refineOnEdge: on the edge where an error value was compared with nil, remember the outcome
 // for that SSA value (so `return "", err` after `if err != nil` is known non-nil).
 func refineOnEdge(fr *frame, st State, cond ssa.Value, bv BoolV, taken bool) State {
+	if !bv.Known && bv.C != nil && bv.C.Kind == "lookupok" && bv.C.Site != nil {
+		if o := fr.ev.lkObj[bv.C.Site]; o != nil {
+			n := st.clone()
+			n[o] = CellC{KBool(taken != bv.Neg)}
+			return n
+		}
+		return st
+	}
 	if bv.Known || bv.C == nil || bv.C.Kind != "isnil" {
 		return st
 	}
@@ -1964,7 +1974,17 @@ func (e *Eval) lookup(fr *frame, x *ssa.Lookup, st State) AV {
 		return TopInt("byte of string")
 	}
 	var val AV = e.topOf(x.Type(), "map value")
-	okv := BoolV{C: &Cond{Kind: "lookupok", A: m, B: k}}
+	okv := BoolV{C: &Cond{Kind: "lookupok", A: m, B: k, Site: x}}
+	if _, isWordMap := m.(MapV); isWordMap {
+		// what the current path knows about this lookup having found its key: nothing yet
+		if e.lkObj == nil {
+			e.lkObj = map[ssa.Instruction]*Obj{}
+		}
+		if e.lkObj[x] == nil {
+			e.lkObj[x] = e.newObj(okCell, x, "lookup-hit")
+		}
+		e.setContentFresh(st, e.lkObj[x], CellC{BoolV{}})
+	}
 	switch mv := m.(type) {
 	case CMapV:
 		mc, ok := st[mv.O].(MapC)
